@@ -1,7 +1,7 @@
 (* C12 - Each pipeline transformation equals its documented source-level rewrite.
    Only statements, each closed by `exact`, with Print Assumptions. *)
 From Coq Require Import NArith List Bool.
-From PS Require Import Base.Chars Model.SString Spec.Items Model.Transform Spec.Rewrite Proofs.SStringP Proofs.TransformP
+From PS Require Import Base.Chars Model.SString Spec.Items Model.Transform Spec.Rewrite Proofs.SStringP Proofs.HashesP Proofs.TransformP
   Proofs.ReplaceP Proofs.AddCondP.
 Import ListNotations.
 
@@ -137,6 +137,28 @@ Theorem C12_chain_marks :
                          Entry (mkI (Some [121%N]) [V (ANum [49%N])] false false [[67%N]; [65%N]])]])].
 Proof. exact chain_marks_example. Qed.
 Print Assumptions C12_chain_marks.
+
+(* ---------- hashes_fields, extract_fields ---------- *)
+(* grouping the hashes by dict insertion = the fields in the order of their first occurrence, each with all
+   its values (also when the occurrences of a field are not adjacent); C12_item / C12_pipeline cover
+   hashes_fields with this lemma, including all-linked and negated items (repaired, fix 0dde42a) *)
+Theorem C12_hashes_grouping : forall pairs, dict_group pairs = spec_group pairs.
+Proof. exact dict_group_spec. Qed.
+Print Assumptions C12_hashes_grouping.
+
+Theorem C12_hashes_interleaved :
+  rdocs_of (apply_tspec no_conds (THashes hashes_cfg) hashes_rule)
+  = [([115%N], All [Any [Entry (mkI (Some [70%N; 77%N; 68%N; 53%N]) [V (AStr false [PStr [97%N]]); V (AStr false [PStr [99%N]])] false false []);
+                         Entry (mkI (Some [70%N; 83%N; 72%N; 65%N; 49%N]) [V (AStr false [PStr [98%N]])] false false [])]])].
+Proof. exact hashes_interleaved_example. Qed.
+Print Assumptions C12_hashes_interleaved.
+
+(* FULL STATEMENT for extract_fields fails for negated items (the new items are never negated, D34); C12_item
+   proves it on rule_sem_ok (no negated item in scope is rewritten) *)
+Theorem C12_extract_negated_refuted :
+  exists asg c t r, meanings asg (apply_tspec c t r) <> doc_meanings asg (rewrite_tspec c t (rdocs_of r)).
+Proof. exact extract_negated_refuted. Qed.
+Print Assumptions C12_extract_negated_refuted.
 
 (* non-vacuity: the premises are met by a rule with a keyword list, a negated item and nested lists *)
 Example C12_premises_inhabited :
